@@ -377,6 +377,34 @@ func runC17(c *core.Ctx) {
 			if notOK && errNil && !core.IsNilConst(st.Val) {
 				typeStored = true
 			}
+			// the error may be kept in a local that is stored into Err once, at the end (`decodeErr = fmt.Errorf(…)` on the
+			// not-ok && decodeErr == nil edge, then `response.Err = decodeErr`): the merged value is read edge by edge
+			if phi, isPhi := core.Resolve(st.Val).(*ssa.Phi); isPhi {
+				for i, e := range phi.Edges {
+					if _, fresh := core.Resolve(e).(*ssa.Call); !fresh || i >= len(phi.Block().Preds) {
+						continue
+					}
+					nOK, eNil := false, false
+					for _, cnd := range core.EdgeFacts(phi.Block().Preds[i]) {
+						nn := core.Normalize(cnd)
+						if ex, isE := nn.V.(*ssa.Extract); isE && ex.Index == 1 && !nn.True {
+							if ta, isTA := ex.Tuple.(*ssa.TypeAssert); isTA && ta.CommaOk {
+								nOK = true
+							}
+						}
+						if m, isM := core.AsCmp(nn); isM && m.Op == token.EQL && core.IsNilConst(m.Y) {
+							for j, e2 := range phi.Edges {
+								if j != i && core.Resolve(e2) == core.Resolve(m.X) {
+									eNil = true
+								}
+							}
+						}
+					}
+					if nOK && eNil {
+						typeStored = true
+					}
+				}
+			}
 		}
 		c.Check(readStored && typeStored, "R4", "decodeResponseBody/failures-become-Err", p.Pos(dec.Pos()), "read error stored as Err; a wrong-typed result without an error gets one",
 			fmt.Sprintf("decodeResponseBody drops a failure (read error stored=%v, wrong-type result reported=%v): the caller sees Err == nil with no decoded target", readStored, typeStored))
